@@ -96,7 +96,7 @@ func (ch c20) queries(c *core.Ctx) []string {
 	for n := 0; n <= 40; n++ {
 		qs = append(qs, "values ("+strings.Repeat("?, ", n)+"?)", strings.Repeat("?", n))
 	}
-	qs = append(qs, "$65535 ?", "? $65535", "$65534 ? ?", "$65535 $65535 ? ? ?", strings.Repeat("?", 65535), strings.Repeat("?", 65536), "$1 "+strings.Repeat("?", 65535))
+	qs = append(qs, "$65535 ?", "? $65535", "select $65536, $2", "select $1, $99999999999999999999, $5", "select $4294967296 $3 $65537 $7", "select $70000 $65535", "$65534 ? ?", "$65535 $65535 ? ? ?", strings.Repeat("?", 65535), strings.Repeat("?", 65536), "$1 "+strings.Repeat("?", 65535))
 	qs = append(qs, "", "$", "$$", "$$ $1 $$", "?", "??", "$1$2", "$1a", "$a1", "'$1'", "\"?\"", "$-1", "$+1", "$ 1", "$１", "ü$1é?", "$1?$2?", strings.Repeat("?", 70000), strings.Repeat("$1 ", 30000), strings.Repeat("$", 5000)+"7")
 	nrand := 120000
 	if c.Tier == "thorough" {
@@ -214,6 +214,20 @@ func (ch c20) Run(c *core.Ctx) {
 			continue
 		}
 		switch {
+		case nd > 0 && nq == 0 && huge:
+			// some marker is beyond the protocol limit: the others still count - the result is the
+			// highest in-range index (markers beyond the limit ignored) or the limit itself (clamped)
+			inRange := int64(0)
+			for _, m := range markers {
+				if m.Index.Cmp(max16) <= 0 && m.Index.Int64() > inRange {
+					inRange = m.Index.Int64()
+				}
+			}
+			c.Count("out_of_range_mixed_compared", 1)
+			if int64(len(res)) != inRange && len(res) != 65535 {
+				c.Violate("count-positional", "markers after an out-of-range marker are lost", fmt.Sprintf("query %q: returned %d parameters, highest in-range index %d", trim(q, 100), len(res), inRange), cs)
+				continue
+			}
 		case nd > 0 && nq == 0 && !huge:
 			c.Count("dollar_only_compared", 1)
 			if int64(len(res)) != maxIdx.Int64() {
